@@ -90,6 +90,19 @@ def random_strings(rnd, n):
     return out
 
 
+def opcode_only(h):
+    """the string is prefix bytes, opcode-map bytes and one opcode byte, nothing after it"""
+    b = bytes.fromhex(h)
+    i = 0
+    while i < len(b) and b[i] in PFX:
+        i += 1
+    if i < len(b) and b[i] == 0x0F:
+        i += 1
+        if i < len(b) and b[i] in (0x38, 0x3A):
+            i += 1
+    return i + 1 == len(b)
+
+
 def stratified(hexes, rnd, n):
     """a sample of about n strings that covers every stratum (prefix bytes, opcode map, ModRM mod and rm, SIB base) of the
     string set: the byte after the opcode is read as ModRM whether or not the opcode has one (a stratification, not a decode)"""
